@@ -38,14 +38,21 @@ func (e *env) c01Sweep(digs []string) {
 			}
 		}
 		for _, tg := range c01Tags {
-			r := e.do("GET", "/v2/"+rn+"/manifests/"+tg, nil, hdr("Accept", acceptAll))
-			if r.code == 200 {
-				h := r.hdr.Get("Docker-Content-Digest")
-				if h == "" {
-					e.fail("tag-no-digest-header", "GET /v2/%s/manifests/%s has no Docker-Content-Digest", rn, tg)
-				}
-				if !hashesTo(h, r.body) {
-					e.fail("tag-body-mismatch", "GET /v2/%s/manifests/%s: body does not hash to reported digest %s", rn, tg, h)
+			// several Accept lists: with an index behind the tag and no index type accepted, the registry negotiates
+			// down to a child manifest - whatever it serves must hash to the digest it reports
+			for _, acc := range []string{acceptAll, mtImage, mtDImage + ", " + mtImage, mtIndex} {
+				r := e.do("GET", "/v2/"+rn+"/manifests/"+tg, nil, hdr("Accept", acc))
+				if r.code == 200 {
+					h := r.hdr.Get("Docker-Content-Digest")
+					if h == "" {
+						e.fail("tag-no-digest-header", "GET /v2/%s/manifests/%s (Accept: %s) has no Docker-Content-Digest", rn, tg, acc)
+					}
+					if !hashesTo(h, r.body) {
+						e.fail("tag-body-mismatch", "GET /v2/%s/manifests/%s (Accept: %s): the %d-byte body (%s) does not hash to the reported digest %s", rn, tg, acc, len(r.body), r.hdr.Get("Content-Type"), h)
+					}
+					if acc != acceptAll {
+						e.class("tag-get-restricted-accept")
+					}
 				}
 			}
 		}
@@ -254,9 +261,21 @@ func c01Property(t *rapid.T, st *Stats) {
 			}
 			ann := map[string]string{"n": fmt.Sprint(rapid.IntRange(0, 3).Draw(t, "salt"))}
 			raw, mm := buildImage(mtImage, mtConfig, cfg, len(mr.blobs[cfg]), layers, sizes, nil, "", ann)
+			ctype := mtImage
+			if ms := sortedKeys(mr.mans); len(ms) > 0 && rapid.IntRange(0, 2).Draw(t, "asIndex") == 0 {
+				// an index over manifests already pushed (negotiation by Accept happens on by-tag GETs of indexes)
+				kids := []mdesc{}
+				for i, n := 0, rapid.IntRange(1, 2).Draw(t, "nChildren"); i < n; i++ {
+					c := rapid.SampledFrom(ms).Draw(t, "child")
+					kids = append(kids, mdesc{MediaType: mr.mans[c].mt, Digest: c, Size: int64(len(mr.mans[c].raw))})
+				}
+				raw, mm = buildIndex(mtIndex, kids, nil, "", ann)
+				ctype = mtIndex
+				e.class("index-pushed")
+			}
 			alg := rapid.SampledFrom(algPool).Draw(t, "alg")
-			p := manifestPlan{repo: rn, raw: raw, mm: mm, ct: mtImage, alg: alg, digest: dig(alg, raw)}
-			mode := rapid.SampledFrom([]string{"tag", "digest", "tag+digest"}).Draw(t, "mode")
+			p := manifestPlan{repo: rn, raw: raw, mm: mm, ct: ctype, alg: alg, digest: dig(alg, raw)}
+			mode := rapid.SampledFrom([]string{"tag", "tag", "digest", "tag+digest"}).Draw(t, "mode")
 			wrong := ""
 			if rapid.IntRange(0, 2).Draw(t, "wrong") == 0 && mode != "tag" {
 				wrong = rapid.SampledFrom([]string{"flip", "other-content", "wrong-prefix"}).Draw(t, "wrongKind")
